@@ -10,8 +10,9 @@ both real Telnet transports over scripted sockets across close()/open(), compare
 (4) an independent oracle on the implementation (transport flag, channel-log handle, /proc/self/fd, threads,
 children); (5) real sockets (loopback Telnet device) and a real pty child (system transport); (6) suite `pty-child`
 (harness/c11_pty.py): the real SystemTransport/PtyProcess under the real sync drivers against /bin/sh stand-ins that
-exit by themselves at a chosen point and against an ssh that cannot be exec'd, observed through /proc (children in any
-state, fds) — the facts about ptyprocess.py that Gen_Lifecycle.v carries (close() reaps in every state, spawn() owns
+exit by themselves at a chosen point, against stand-ins that are STILL RUNNING at close() and ignore SIGHUP / SIGINT /
+both / SIGTERM too (wedged ssh wrapper: only the SIGKILL escalation of PtyProcess.close() gets rid of them) and against an
+ssh that cannot be exec'd, observed through /proc (children in any state, fds) — the facts about ptyprocess.py that Gen_Lifecycle.v carries (close() reaps in every state, spawn() owns
 what the fork created before anything can raise) are obligations of props/C11.v; (7) suite `two-conn`
 (harness/c11_two.py, ORACLE-ONLY): histories over TWO real driver objects — B.commandeer(A) with either / both / none of
 them writing a channel_log file, closed through B only / A only / both in both orders (+ re-open); nested with-blocks of two
@@ -872,12 +873,14 @@ def _pty_suite(rep, rng, thorough, tmpdir, corpus):
     import gc
     pdist = {"histories": 0, "sessions": 0, "release_points": 0, "release_points_after_raise": 0,
              "closes_after_eof_was_read": 0, "exec_failures_after_fork": 0, "opens_over_an_existing_session": 0,
+             "sessions_of_a_child_ignoring": {}, "release_points_with_a_child_ignoring_HUP_and_INT": 0,
              "platforms": {}, "sessions_by_kind": {}}
     psc = [c["scenario"] for c in corpus if c.get("suite") == "pty-child"]
     psc += P.fixed_scenarios(rng, thorough)
     psc += [P.gen_history(rng) for _ in range(40 if thorough else 2)]
     import random
     psc += P.over_scenarios(random.Random("c11-pty-over-%s" % rep.seed), thorough)   # own stream: the others do not move
+    psc += P.wedge_scenarios(random.Random("c11-pty-wedge-%s" % rep.seed), thorough)  # own stream as well
     seen = set()
     import time
     t0 = time.time()
@@ -898,8 +901,16 @@ def _pty_suite(rep, rng, thorough, tmpdir, corpus):
             for k in P.classify(sc, obs):
                 pdist["sessions"] += 1
                 pdist["sessions_by_kind"][k] = pdist["sessions_by_kind"].get(k, 0) + 1
+            stubborn = False         # a child that ignores HUP and INT was started and no release point has come yet
             for op, o in zip(sc["ops"], obs):
+                ign = (op.get("child") or {}).get("ignore") if op["op"] in ("open", "with") else None
+                if ign is not None:
+                    key = "+".join(ign) or "nothing (lingers)"
+                    pdist["sessions_of_a_child_ignoring"][key] = pdist["sessions_of_a_child_ignoring"].get(key, 0) + 1
+                    stubborn = stubborn or {"HUP", "INT"} <= set(ign)
                 if op["op"] in ("close", "with"):
+                    pdist["release_points_with_a_child_ignoring_HUP_and_INT"] += stubborn
+                    stubborn = False
                     pdist["release_points"] += 1
                     pdist["release_points_after_raise"] += o["res"] != "ok"
                     pdist["closes_after_eof_was_read"] += bool(o["eof_before_close"])
@@ -1295,6 +1306,11 @@ def _explore(rep, rng, thorough, tmpdir, info, gen_ok):
                 "at a drawn point (start, on_open line 1-3, on the body command, 1-2 lines into on_close; exit 0 / 255 / SIGKILL) or the ssh exec failing "
                 "(ENOEXEC, missing interpreter, E2BIG, not executable; open_cmd / PATH): quick = one platform per kind + 2 random histories, thorough = "
                 "all platforms x phases x shapes + 40 random; distinct = history JSON; non-trivial = some op raised.  "
+                "pty-child, wedged stand-ins (own stream): the /bin/sh device answers normally, ignores a set of signals (nothing | HUP | INT | HUP+INT | HUP+INT+TERM; trap '' "
+                "before the first prompt) and does not exit on 'exit' / end of input (exec sleep: same pid, no grandchild), so it is running when close() is called: quick = one with-block "
+                "(0-1 body commands, normal exit / ValueError; then close()) over a child ignoring HUP+INT+TERM on a drawn platform + one open/operate/close/close/re-open over a drawn smaller set; "
+                "thorough = 6 platforms x 5 sets x (with-block | plain) with re-open + 8 histories where the wedged session is replaced by another open() / with-block + 12 random histories "
+                "(70 % wedged children).  "
                 "two-conn: histories over two driver objects A, B — commandeer (open A with/without channel_log file, B constructed with/without its own, "
                 "B.commandeer(A) with/without on_open and with the device dropping/stalling inside it, operate through B and/or A, close B | A | B,A | A,B, repeated closes, "
                 "re-open) every (stack x logs x order) combination on every run + random; nested with-blocks (outer A, inner B: inner stall / drop / body raising "
@@ -1424,7 +1440,8 @@ MANIFEST = {
             "without reset are refuted by vm_compute witnesses.  System (pty) transport: PtyProcess.close() as translated from the CURRENT ptyprocess.py "
             "waits for the ssh child and closes the pty master from EVERY state of an un-closed object — EOF already read or not, child running / defunct — "
             "raises only if the child survives SIGKILL, does nothing on a closed object (C11_pty_close_reaps, C11_pty_close_idempotent; decided over all 24 "
-            "states x 4 environments); the parent part of PtyProcess.spawn() wraps pid/fd in a PtyProcess before any statement that can raise, so a failed "
+            "states x 8 environments: hang-up ends the child or not x SIGHUP/SIGCONT/SIGINT end it or not x SIGKILL ends it or not; the force argument close() passes to terminate() "
+            "is translated, a close() that does not escalate to SIGKILL fails the obligation: pty_close_no_force_rejected); the parent part of PtyProcess.spawn() wraps pid/fd in a PtyProcess before any statement that can raise, so a failed "
             "exec of the ssh binary leaves them owned and close() releases them (C11_pty_open_failure_released).  The full statement for the pty child is "
             "refuted (C11_pty_close_full_refuted: EOF read while the child still runs and ignores SIGHUP -> blocking waitpid).  Release of OS resources (fds, pty child, "
             "sockets, threads) is otherwise OBSERVED, not proved: partial.  Two connections (commandeer: B takes over A's transport and A's log handle; nested with-blocks; "
@@ -1441,7 +1458,8 @@ MANIFEST = {
             "(step SStallOpen; both are device outcomes the theorems quantify over, both exercised by the lifecycle correspondence: gen_no_terminate); only Exception subclasses (no KeyboardInterrupt/BaseException); "
             "open() on an already open connection (handle replacement) is outside the property's quantifier and not tracked. "
             "Pty child model: only PtyProcess.close() and the parent part of spawn() are translated (ast, fail-closed; gen also requires __del__ -> self.close() "
-            "and SystemTransport.close -> session.close()); isalive()/terminate()/waitpid, 'closing the master sends SIGHUP' and 'os.close/os.read on the "
+            "and SystemTransport.close -> session.close(), and that terminate(force=False) sends SIGHUP, SIGCONT, SIGINT and, exactly under `if force`, SIGKILL, "
+            "returning True only after `not self.isalive()`); isalive()/terminate()/waitpid (signals take effect at once: the 0.1 s waits of the code are not modelled), 'closing the master sends SIGHUP' and 'os.close/os.read on the "
             "exec-error pipe do not raise' are hand-written model assumptions; the premise of C11_pty_close_reaps (if an EOF was read while the child still runs, the SIGHUP of "
             "the closed master makes it exit: true of ssh) is the region of the partial theorem — outside it close() waits for the child (blocking waitpid once "
             "flag_eof is set): PBlocks in the model, confirmed by hand on the real code (a child that closed its tty, ignores SIGHUP and sleeps 2 s: close() took "
@@ -1452,7 +1470,11 @@ MANIFEST = {
             "hooks + generic), /bin/sh stand-ins exiting before the first prompt / inside on_open / inside the body or an operation / inside on_close by "
             "exit 0, exit 255 or SIGKILL, an ssh whose exec fails after the fork (ENOEXEC, missing interpreter, E2BIG; via open_cmd or first on PATH) or that is "
             "refused before it; with-blocks and open/operate/close/close/re-open; observers: children of this process in ANY state (zombies included), "
-            "/proc/self/fd, threads, after gc.collect() (8 histories quick, ~100 thorough). "
+            "/proc/self/fd, threads, after gc.collect() (9 histories quick, ~100 thorough). "
+            "Wedged stand-ins (ORACLE-ONLY as the rest of the suite; the model's counterpart is the environment polite_works = false, kill_works = true of C11_pty_close_reaps): children that "
+            "ignore nothing / HUP / INT / HUP+INT / HUP+INT+TERM and linger after 'exit' and after the hang-up, so close() finds them running and without an EOF read; same oracle, "
+            "same observers: after close() / the with-block no child of the connection is alive or a zombie (2 histories quick = +~1 s: each SIGKILL escalation costs the code's own 5 x 0.1 s; "
+            "~80 thorough).  NOT generated: a child that ignores the signals AND closed its tty (EOF read) — the known blocking-waitpid region above; a child that survives SIGKILL. "
             "Observed only (partial): /proc/self/fd, child pids, threading.enumerate, handle attributes for SimDevice runs (every run) and for real "
             "sockets / a real pty child (6 scenarios quick, 24 thorough); in-channel authentication outcomes are modelled but not exercised (auth_bypass); "
             "ssh2 transport is not exercised (library not installed). "
@@ -1482,6 +1504,6 @@ MANIFEST = {
             "Known finding c11-reopen-adopted-log (replayed every run, the generator keeps away): re-open of a commandeering connection without own channel_log after close().",
     "technique": "Coq: verified abstract interpretation of generated method bodies + case analysis over outcomes; vm_compute correspondence against "
                  "real drivers with fault injection at every read/write; exhaustive evaluation of the translated PtyProcess.close() over its finite "
-                 "state space; /proc observers (children incl. zombies, fds) on real pty children that exit by themselves or cannot be exec'd; "
+                 "state space; /proc observers (children incl. zombies, fds) on real pty children that exit by themselves, ignore the termination signals or cannot be exec'd; "
                  "recording stub ssh libraries + in-process loopback ssh servers failing open() at every internal step",
 }
